@@ -415,8 +415,8 @@ pub fn worker(ctx: &WorkerCtx) -> WorkerResult {
     let id: &'static str = if ctx.id == "C13" { "C13" } else { "C14" };
     let (c13, c14) = (id == "C13", id == "C14");
     let cases = match ctx.tier {
-        Tier::Quick => 3000u64,
-        Tier::Thorough => 100_000,
+        Tier::Quick => 30_000u64,
+        Tier::Thorough => 400_000,
     };
     let cases = std::env::var("VERIF_CASES").ok().and_then(|s| s.parse().ok()).unwrap_or(cases);
     let mut r0 = WorkerResult::default();
@@ -439,6 +439,9 @@ pub fn worker(ctx: &WorkerCtx) -> WorkerResult {
                     return r0;
                 }
                 r0.nontrivial_hashes.push(hash_json(&(len, bits)));
+                if r0.samples.is_empty() {
+                    r0.samples.push(json!({"policy_family_member": {"key_lengths": format!("0..={len}"), "bits_per_key": bits}}));
+                }
             }
         }
         r0.classes.insert("policy_length_x_bits_family".into(), fam);
@@ -524,7 +527,9 @@ pub fn worker(ctx: &WorkerCtx) -> WorkerResult {
                     let nt = if c13 { st.nontrivial13 } else { st.nontrivial14 };
                     if nt {
                         r.nontrivial_hashes.push(hash_json(&case));
-                        if r.samples.len() < 2 {
+                    }
+                    if nt || r.samples.len() < 2 {
+                        if r.samples.len() < 3 {
                             let mut v = serde_json::to_value(&case).unwrap();
                             if let Some(e) = v.get_mut("entries").and_then(|e| e.as_array_mut()) {
                                 let n = e.len();
